@@ -200,8 +200,11 @@ PROPERTIES = {
                        "panic-class obligation left, result >= 0 — the contract log2 / ln / pow rely on.  tan (its divisor 1 + cos 2x is non-zero only by an accuracy argument) by "
                        "Kani on I9F23 (the stated domain); Kani re-checks sin / cos / sqrt / log2 / ln / exp bit-precisely on I9F23 and sin / cos / exp on I32F32 / I64F64",
         "not_covered": ["tan for types other than I9F23"],
-        "assumptions": ["trait-level contracts of Fixed / FixedSigned are the statements proved for the inherent methods in units nofrac / fracops; "
-                        "the trait_delegate! forwarders are not verified",
+        "assumptions": ["trait-level contracts of the generic Fixed / FixedSigned: the METHOD contracts are copied at render time from contracts/fixed_trait.inc, the text that unit "
+                        "traitfwd@<family> proves for each family's `impl Fixed` forwarder; the OPERATOR axioms (ax_shr, ax_shl, ax_and_lsb, ax_mul_assign, trig's ax_ops with +=/-=, ax_bits, ax_neg) "
+                        "are proved per family, from the operator contracts, as implementations of link traits whose statements are copied from the generic trait "
+                        "(units bitops@<family>, fracops, nofrac); what stays assumed for the generic parameter: from_num / overflowing_to_num (proved per family in unit intconv), "
+                        "same-type comparison ax_cmp (unit cmp), and ax_bits_ops about the primitive `Bits` type",
                         "axioms ax_from_const, ax_from_src, ax_cmp_const (conversions from the I9F23 constants are lossless, cross-type comparison is exact: C04 / C03)",
                         "log2_inner contract (result >= 0 for operand >= 1) is assumed in unit transc and proved in unit log2inner (one contract text, contracts/log2inner.inc)",
                         "axiom ax_bits_ops: D::Bits is the primitive integer behind D, its `+=`, `<<=`, `|=` have Rust's checked semantics (same trust as the prelude specs of core integer methods)",
